@@ -2,20 +2,29 @@
 
 1. TLC model-checks tla/Shlibs.tla through tla/ShlibsMC.tla: the transcribed regular expression
    of _ldd_library_pattern and the matching loop of resolve_from_ldd_output (implementation layer,
-   exact on characters) satisfy the clauses of C19 (property layer) on every listing of the
-   configured bounds; tla/ShlibsWit.tla shows that the property layer rejects each of ten deliberate
-   deviations of the implementation layer and produces the killer cases.
-2. The cases TLC enumerated (exported with ndJsonSerialize), the killer/witness cases and seeded
-   random cases of the same abstract schema (ldd / otool / BSD ldd / wrapper styles) are rendered to
-   text and given to the REAL giscanner.shlibs.resolve_from_ldd_output + sanitize_shlib_path (and, for
-   a part, to resolve_shlibs with the loader's output substituted); generated .la files go through
-   the real resolve_shlibs -> extract_libtool_shlib.
-3. Every observation is judged by TLC (tla/ShlibsTrace.tla, tla/ShlibsLaTrace.tla) which computes
-   the expected resolution with the spec's Resolve on the abstract case.  Python never decides.
-"""
-import json, os, shutil, sys, types
+   exact on characters; once as a small-step machine, once as one step per case) satisfy the clauses
+   of C19 (property layer) on every listing of the configured bounds; tla/ShlibsWit.tla shows that the
+   property layer rejects each of nine deliberate deviations of the implementation layer and produces
+   the killer cases, a case outside the precondition, and the archives the code drops silently.
+2. The cases TLC enumerated (exported with ndJsonSerialize, one file per vocabulary), the
+   killer/witness cases, the listings of tests/scanner/test_shlibs.py and seeded random cases of the
+   same abstract schema (ldd / otool / BSD ldd / wrapper / free-form styles; kept inside the
+   quantifier of C19) are rendered to text and given to the REAL
+   giscanner.shlibs.resolve_from_ldd_output + sanitize_shlib_path (and, for one in eight, to
+   resolve_shlibs with the loader's output substituted); generated .la files go through the real
+   resolve_shlibs -> extract_libtool_shlib.
+3. Every observation is judged by TLC (tla/ShlibsTrace.tla, tla/ShlibsLaTrace.tla; batches in
+   parallel) which computes the expected resolution with the spec's operators on the abstract case.
+   Python never decides: it renders, runs, projects, and maps rejected ids to replay files.
 
-from ..common import Check, MachineryError, main_wrapper, REPO
+quick: Shlibs_quick + Shlibs_wide + Shlibs_q22 + ShlibsWit (concurrently; every 4th case of Shlibs_wide
+goes to the real code), 2500 random listings, 400 random archives.  thorough: additionally Shlibs_t32/t23/t33 (<=3 lines x <=3 words), the <=2x2 bound
+exported completely, 40000 random listings, 4000 random archives.
+"""
+import glob, json, os, shutil, string, sys, types
+from concurrent.futures import ThreadPoolExecutor
+
+from ..common import Check, MachineryError, main_wrapper, REPO, NCPU
 
 PID = 'C19'
 
@@ -63,6 +72,35 @@ def chars(s):
 
 def S(cs):
     return ''.join(cs)
+
+
+# The quantifier of C19, generator side ("requested name lists in which no single listed file could
+# satisfy two requests"): used ONLY to keep the random generator inside the quantifier (TLC recomputes
+# the precondition on every record with Shlibs!Judge.dom and reports records outside it as OUTSIDE).
+IDCHARS = set(string.ascii_letters + string.digits + '_-')
+
+
+def _matches_base(bc, req):
+    p = 'lib' + req
+    return len(bc) > len(p) and bc.startswith(p) and bc[len(p)] not in IDCHARS
+
+
+def _is_header(line):
+    return bool(line) and word_text(line[-1]).endswith(':')
+
+
+def ambiguous_words(reqs, listing):
+    """[(line index, word index, [request indexes])] of the words outside header lines whose base name
+    satisfies two requests (a request listed twice counts twice)"""
+    out = []
+    for i, line in enumerate(listing):
+        if _is_header(line):
+            continue
+        for j, w in enumerate(line):
+            hit = [k for k, q in enumerate(reqs) if _matches_base(S(w['bc']), q)]
+            if len(hit) > 1:
+                out.append((i, j, hit))
+    return out
 
 
 # ---------------------------------------------------------------------------------------------
@@ -128,7 +166,8 @@ class Gen:
         r = self.r
         pool = self.names()
         nreq = r.choice([1, 1, 2, 2, 2, 3, 4])
-        reqs = [r.choice(pool) for _ in range(nreq)] if r.random() < 0.08 else r.sample(pool, min(nreq, len(pool)))
+        pool = list(dict.fromkeys(pool))                        # requests are distinct names
+        reqs = r.sample(pool, min(nreq, len(pool)))
         # which libraries the binary links: requested ones (mostly), siblings, unrelated
         listed = []
         for q in reqs:
@@ -168,7 +207,9 @@ class Gen:
                 w = self.libword(stem, reqs)
                 soname = dict(w, dc=[])
                 k = r.random()
-                if k < 0.7:
+                if not w['bc']:                                 # a bare directory word has no soname
+                    lines.append([w, mkword(stem='(0x%012x)' % r.getrandbits(44))])
+                elif k < 0.7:
                     full = w if w['dc'] else dict(w, dc=chars('/usr/lib/'))
                     lines.append([soname, mkword(stem='=>'), full, mkword(stem='(0x%012x)' % r.getrandbits(44))])
                 elif k < 0.8:
@@ -209,6 +250,17 @@ class Gen:
                 pos = r.randint(0, len(lines))
                 lines.insert(pos, header)
                 hints.insert(pos, ('', ' ', ''))
+        # stay inside the quantifier: while some listed file satisfies two requests, either withdraw the
+        # later of the two requests or take the file out of the listing
+        while True:
+            amb = ambiguous_words(reqs, lines)
+            if not amb:
+                break
+            i, j, hit = amb[0]
+            if r.random() < 0.5:
+                del reqs[hit[-1]]
+            else:
+                del lines[i][j]
         case = dict(t='ldd', reqs=[chars(q) for q in reqs], files=[], listing=lines)
         h = dict(nl=r.choice(['\n', '\n', '\n', '\r\n']), lines=[list(x) for x in hints], final_nl=r.random() < 0.7)
         return case, h
@@ -362,6 +414,64 @@ def load_ndjson(path):
     return out
 
 
+def mc_many(ck, runs):
+    """ck.tlc_mc for several independent configurations at a time (each TLC spends about half of its
+    time single-threaded, generating initial states).  Same bookkeeping as Check.tlc_mc, done here in
+    the calling thread; a configuration that does not complete cleanly is a machinery failure."""
+    def one(r):
+        extra = ['-coverage', '1'] if r.get('coverage') else []
+        return ck._tlc(r['module'] + '.tla', r['cfg'], extra, r.get('env'), r.get('timeout', 7500), r.get('workers') or NCPU)
+
+    with ThreadPoolExecutor(max_workers=max(1, min(len(runs), NCPU // 4))) as ex:      # 16 cores: 4 at a time; <= 7 cores: one at a time
+        results = list(ex.map(one, runs))
+    for r, res in zip(runs, results):
+        ck.cov['states'] += res['distinct']
+        ck.cov['transitions'] += res['generated']
+        ck.cov['tlc_runs'].append(dict(module=r['module'], cfg=r['cfg'], label=r.get('label'), generated=res['generated'],
+                                       distinct=res['distinct'], depth=res['depth'], wall_s=res['wall_s'], ok=res['ok'], mode='exhaustive',
+                                       violated=res.get('violated'),
+                                       actions_never_taken=sorted(a for a, (d, g) in res['coverage'].items() if g == 0)))
+    for r, res in zip(runs, results):
+        if not res['ok']:
+            raise MachineryError('TLC on %s/%s did not complete cleanly: %s\n%s' % (r['module'], r['cfg'], res.get('error'), res['out'][-3000:]))
+
+
+def verdicts(ck, module, obs, chunk, jobs, timeout=7500):
+    """ck.tlc_verdict for many records: the batches are independent, so they are judged by several TLC
+    processes at a time (same protocol: TRACE_FILE in, VERDICT_FILE out, totality check on n)."""
+    parts = [obs[k:k + chunk] for k in range(0, len(obs), chunk)]
+
+    def one(arg):
+        k, part = arg
+        tf = os.path.join(ck.tmp, 'obs-%s-p%d.json' % (module, k))
+        vf = os.path.join(ck.tmp, 'verdict-%s-p%d.json' % (module, k))
+        with open(tf, 'w') as f:
+            json.dump(part, f)
+        r = ck._tlc(module + '.tla', module + '.cfg', [], dict(TRACE_FILE=tf, VERDICT_FILE=vf), timeout, 1)
+        if not os.path.exists(vf):
+            raise MachineryError('trace spec %s produced no verdict:\n%s' % (module, r['out'][-3000:]))
+        v = json.load(open(vf))
+        if v.get('n') != len(part):
+            raise MachineryError('trace spec %s consumed %s of %d records' % (module, v.get('n'), len(part)))
+        os.unlink(tf)
+        return v, r['wall_s']
+
+    rejected, exercised, walls = [], {}, []
+    with ThreadPoolExecutor(max_workers=max(1, jobs)) as ex:
+        for v, w in ex.map(one, enumerate(parts)):
+            rejected += [tuple(x) for x in v.get('rejected', [])]
+            for c, cnt in v.get('exercised', {}).items():
+                exercised[c] = exercised.get(c, 0) + cnt
+            walls.append(w)
+    ck.cov['traces_validated_against_impl'] += len(obs)
+    ev = ck.cov.setdefault('clauses_exercised', {})
+    for c, cnt in exercised.items():
+        ev[c] = ev.get(c, 0) + cnt
+    ck.cov.setdefault('verdict_runs', []).append(dict(module=module, records=len(obs), batches=len(parts), jobs=jobs,
+                                                      tlc_wall_s_sum=round(sum(walls), 1), tlc_wall_s_max=max(walls) if walls else 0))
+    return rejected, exercised
+
+
 def run():
     ck = Check(PID, 'model_checking')
     a = ck.args
@@ -371,7 +481,11 @@ def run():
         'names and listings are printable ASCII; "letter" and "digit" mean [A-Za-z] and [0-9]; requests contain no "/" and no blanks',
         'a header line is a line whose text ends in ":" (no trailing blanks after the colon)',
         'the renderer (harness/props/c19.py:render, word_text) joins the characters of the abstract case verbatim: words by blanks, lines by \\n or \\r\\n',
-        'calls run in an empty working directory (no request names an existing file) except for the explicit request_names_existing_file probes',
+        'C19 is read as a statement about library NAMES: a request that names an existing file in the working directory gets no pattern by design '
+        '(the "library given as a path" input form, same test in ccompiler.get_external_link_flags) and the property layer is silent about it '
+        '(Shlibs!Named); calls run in an empty working directory except for the explicit probes (counted as ExistingFile, noted as FILE-SKIPPED)',
+        'the random generator keeps to the quantifier (no listed file satisfies two requests; requests distinct) by withdrawing a request or a listed file; '
+        'TLC recomputes the precondition on every record (InDomain) and a random case outside it is a machinery failure',
         'observed composition for the ldd path is map(sanitize_shlib_path, resolve_from_ldd_output(libraries, output)) as in _resolve_non_libtool; one case in eight additionally goes through resolve_shlibs with subprocess.check_output substituted',
         '.la files are well-formed libtool output (one assignment per line, every line newline-terminated); the property-level dlname is the value of the first line dlname=\'...\'',
     ]
@@ -381,37 +495,54 @@ def run():
     wit = None
 
     if a.replay:
+        # a replay file records one input (written by Check.finish for a violation) or a list of them
+        # ("suite": all inputs of a run, written when C19_SUITE_OUT is set); both are re-run exactly
+        # against the current tree and judged again by TLC
         rp = json.load(open(a.replay))['replay']
-        if rp['case']['t'] == 'la':
-            la_cases.append((rp['id'], rp['case'], 'replay'))
-        else:
-            cases.append((rp['id'], rp['case'], rp.get('hints'), 'replay'))
+        for one in rp.get('suite', [rp]):
+            if one['case']['t'] == 'la':
+                la_cases.append((one['id'], one['case'], 'replay'))
+            else:
+                cases.append((one['id'], one['case'], one.get('hints'), 'replay'))
     else:
         # ---------------------------------------------------------------- 1. model checking
         exports = []
-
-        def mc(cfg, label, coverage=False, timeout=1200):
-            exp = os.path.join(ck.tmp, 'export-%s.ndjson' % cfg)
-            ck.tlc_mc('ShlibsMC', cfg + '.cfg', env={'C19_EXPORT': exp}, coverage=coverage, timeout=timeout, label=label)
-            exports.append((cfg, exp))
-
-        mc('Shlibs_quick', 'exhaustive, small steps: 5 vocabularies x <=2 lines x <=2 words x request lists; archives <=3 lines', coverage=True)
-        mc('Shlibs_wide', 'exhaustive: full structured word alphabet (dir x prefix x stem x separator x rest x colon), one word')
-        if not ck.quick:
-            mc('Shlibs_t32', 'exhaustive: 5 vocabularies x <=3 lines x <=2 words')
-            mc('Shlibs_t23', 'exhaustive: 5 vocabularies x <=2 lines x <=3 words')
-            mc('Shlibs_t33', 'exhaustive: 3 reduced vocabularies x <=3 lines x <=3 words x 2 requests')
-        ck.cov['exhaustive'] = True
         witf = os.path.join(ck.tmp, 'witness.json')
-        ck.tlc_mc('ShlibsWit', 'ShlibsWit.cfg', env={'C19_WITNESS': witf}, coverage=False, workers=1, timeout=900,
-                  label='property layer rejects every deviation of the implementation layer; witnesses')
+
+        def mc(cfg, label, coverage=False, workers=None, timeout=7500):
+            exp = os.path.join(ck.tmp, 'export-%s' % cfg)          # TLC writes <exp>.<theme>
+            exports.append((cfg, exp))
+            return dict(module='ShlibsMC', cfg=cfg + '.cfg', env={'C19_EXPORT': exp}, coverage=coverage, label=label, workers=workers, timeout=timeout)
+
+        half = max(2, NCPU // 2) if NCPU >= 8 else NCPU      # concurrent runs share the cores (see mc_many)
+        first = [
+            mc('Shlibs_quick', 'exhaustive, small steps (one action per line class / word outcome): 5 vocabularies x <=2 lines (possibly empty) x 1 word '
+                               'x request lists (also the empty list and a first request naming an existing file); archives <=2 lines', coverage=True, workers=half),
+            mc('Shlibs_wide', 'exhaustive: full structured word alphabet (dir x prefix x stem x separator x rest x colon), one word, 5 request lists', workers=half),
+            mc('Shlibs_q22' if ck.quick else 'Shlibs_q22x',
+               'exhaustive: 5 vocabularies x <=2 lines x <=2 words x request lists' + ('' if ck.quick else ', every case exported to the real code'), workers=half),
+            dict(module='ShlibsWit', cfg='ShlibsWit.cfg', env={'C19_WITNESS': witf}, workers=1, timeout=4500,
+                 label='property layer rejects every deviation of the implementation layer (killer cases); witnesses outside the precondition'),
+        ]
+        mc_many(ck, first)
+        if not ck.quick:
+            for r in [mc('Shlibs_t32', 'exhaustive: 5 vocabularies x <=3 lines x <=2 words'),
+                      mc('Shlibs_t23', 'exhaustive: 5 vocabularies x <=2 lines x <=3 words'),
+                      mc('Shlibs_t33', 'exhaustive: 3 reduced vocabularies x <=3 lines x <=3 words x 2 requests')]:
+                mc_many(ck, [r])
+        ck.cov['exhaustive'] = True
         wit = json.load(open(witf))
         ck.cov['spec_level_discrimination'] = sorted({'%s -> %s' % (k['variant'], k['clause']) for k in wit['killers']})
         ck.cov['spec_pool'] = dict(pool=wit['pool'], in_domain=wit['indomain'], ambiguous_and_differs_from_Resolve=wit['ambig'])
 
         # ---------------------------------------------------------------- 2. cases
         for cfg, exp in exports:
-            for i, c in enumerate(load_ndjson(exp)):
+            files = sorted(glob.glob(exp + '.*'))
+            if not files:
+                raise MachineryError('TLC exported no cases for %s' % cfg)
+            for i, c in enumerate(x for f in files for x in load_ndjson(f)):
+                if ck.quick and cfg == 'Shlibs_wide' and i % 4:
+                    continue                      # quick: every 4th word of the structured alphabet goes to the real code (thorough: all)
                 if c['t'] == 'la':
                     la_cases.append(('tlc-%s-%d' % (cfg, i), c, 'TLC enumeration ' + cfg))
                 else:
@@ -421,13 +552,13 @@ def run():
         for i, c in enumerate(wit['ambiguous']):
             cases.append(('ambiguous-%d' % i, c, None, 'TLC: outside the precondition (one file satisfies two requests)'))
         for i, c in enumerate(wit['files']):
-            cases.append(('existing-file-%d' % i, c, None, 'TLC: a request names an existing file'))
+            cases.append(('existing-file-%d' % i, c, None, 'TLC: a request names an existing file (outside the statement; probe)'))
         for i, c in enumerate(wit['la']):
-            la_cases.append(('la-witness-%d' % i, c, 'TLC: archive the implementation layer drops silently'))
+            la_cases.append(('la-witness-%d' % i, c, 'TLC: archive the implementation layer drops silently (Inv_LaFailLoudly counterexample)'))
         for i, c in enumerate(corpus_cases()):
             cases.append(('corpus-%d' % i, c, None, 'tests/scanner/test_shlibs.py'))
         g = Gen(ck.rng)
-        nrand = 6000 if ck.quick else 60000
+        nrand = 2500 if ck.quick else 40000
         for i in range(nrand):
             c, h = g.case()
             cases.append(('rand-%d' % i, c, h, 'random seed %d' % ck.seed))
@@ -436,6 +567,11 @@ def run():
                 cases.append(('rand-%d-file' % i, c2, h, 'random seed %d, request names an existing file' % ck.seed))
         for i in range(400 if ck.quick else 4000):
             la_cases.append(('la-rand-%d' % i, g.la(), 'random seed %d' % ck.seed))
+
+    if os.environ.get('C19_SUITE_OUT') and not a.replay:
+        with open(os.environ['C19_SUITE_OUT'], 'w') as f:
+            json.dump(dict(property=PID, replay=dict(suite=[dict(id=cid, case=c, hints=h) for cid, c, h, _ in cases] +
+                                                                  [dict(id=cid, case=c) for cid, c, _ in la_cases])), f)
 
     # -------------------------------------------------------------------- 3. the real code
     obs, by_id = [], {}
@@ -448,7 +584,7 @@ def run():
         rec = dict(id=cid, t='ldd', reqs=c['reqs'], files=c['files'], listing=c['listing'], kind=o['kind'], out=o['out'], msgc=o['msgc'])
         obs.append(rec)
         by_id[cid] = dict(id=cid, case=c, hints=h, src=src, text=text, observed=dict(kind=o['kind'], out=[S(x) for x in o['out']], msg=S(o['msgc'])))
-        if n % 8 == 0 or a.replay:
+        if n % 8 == 0 or (a.replay and len(cases) < 50):
             o2 = real.ldd(reqs, files, text, via_api=True)
             ck.count()
             rec2 = dict(rec, id=cid + '/api', kind=o2['kind'], out=o2['out'], msgc=o2['msgc'])
@@ -467,26 +603,37 @@ def run():
         ck.nontrivial('la\0' + by_id[cid]['text'])
 
     # -------------------------------------------------------------------- 4. verdicts by TLC
-    rej, ex = ck.tlc_verdict('ShlibsTrace', obs, chunk=4000, timeout=1500) if obs else ([], {})
-    rej2, ex2 = ck.tlc_verdict('ShlibsLaTrace', la_obs, chunk=4000, timeout=900) if la_obs else ([], {})
-    ndrift = 0
+    jobs = NCPU - 2 if NCPU >= 8 else max(1, NCPU)
+    rej, ex = verdicts(ck, 'ShlibsTrace', obs, chunk=max(250, min(1500, len(obs) // jobs + 1)), jobs=jobs) if obs else ([], {})
+    rej2, ex2 = verdicts(ck, 'ShlibsLaTrace', la_obs, chunk=2000, jobs=jobs) if la_obs else ([], {})
+    ndrift, noutside, nskipped = 0, 0, 0
     for rid, clause, detail in list(rej) + list(rej2):
         info = by_id[rid]
         if clause == 'MALFORMED':
             raise MachineryError('case %s (%s) is not well-formed: %s' % (rid, info['src'], detail))
+        if clause == 'OUTSIDE':
+            noutside += 1
+            if rid.startswith('rand-') or rid.startswith('la-rand-'):
+                raise MachineryError('random case %s (%s) is outside the quantifier of C19 (generator bug): %s' % (rid, info['src'], detail))
+            continue
+        if clause == 'FILE-SKIPPED':
+            nskipped += 1
+            if nskipped <= 3:
+                ck.notes.append('FILE-SKIPPED %s (%s): requests %s, real code %r' % (rid, info['src'], [S(q) for q in info['case']['reqs']], info['observed']))
+            continue
         if clause == 'DRIFT':
             ndrift += 1
             if ndrift <= 20:
                 ck.notes.append('DRIFT %s (%s): real code %r, implementation layer predicts otherwise; property layer accepts'
                                 % (rid, info['src'], info['observed']))
             continue
-        sig = dict(clause=clause, cause=detail)
-        if info.get('via'):
-            sig['via'] = 'resolve_shlibs'
+        sig = dict(clause=clause, cause=detail)          # ldd: cause '-'; archives: the kind of dlname
         what = 'requests %s' % [S(q) for q in info['case']['reqs']] if info['case']['t'] == 'ldd' else 'archive %s' % S(info['case']['name'])
         ck.violation(sig, '%s violated (%s) on %s [%s]: %s; real code -> %s\n%s' % (
             clause, detail, rid, info['src'], what, info['observed'], info['text'][:900]),
             dict(id=rid.split('/')[0], case=info['case'], hints=info.get('hints'), text=info['text'], observed=info['observed']))
+    ck.cov['outside_quantifier'] = noutside
+    ck.cov['existing_file_requests_skipped_silently'] = nskipped
     ck.cov['drifted'] = ndrift
     if not a.replay:
         core = ['RightFile', 'FirstListed', 'ByBaseName', 'HeaderIgnored', 'NeverPrefixSibling', 'FailLoudly']
